@@ -26,6 +26,8 @@ Replaced by the harness (everything else is the code under test):
   * `sysstats.cpu_model` (0.2 s per call in telemetry.add_metadata_for_node) returns a constant.
 Decisions: ('deliver', src, dst[, outcome]) | ('wakeup', actor) | ('join', ip) | ('leave', ip) | ('rc', 'stop'|'reset0'|'reset1'|'teardown')
            | ('proc', node id, 'early'|'late'|'stubborn') | ('rc', 'restart')
+           (outcome of a StartNodes delivery: 'ok'|'create'|'launch'; of a StopNodes / ActorExitRequest delivery to a node actor that
+           still has its mechanic: 'known'|'unknown' = whether the race store of that host knows the race; never on a remote host)
 Reuse: ('rc', 'restart') is offered once EngineStopped has arrived and everything belonging to the finished lifecycle has drained
 (no message in flight, no pending wake-up of M, its node actors gone). Dispatchers of earlier lifecycles stay alive and idle (they
 are children of M); their ActorExitRequest at teardown is executed silently together with M's.
@@ -102,7 +104,7 @@ class MechWorld:
         racesim.ensure_rally_home()
         import psutil
 
-        from esrally import config, metrics, telemetry
+        from esrally import config, exceptions, metrics, telemetry
         from esrally.mechanic import cluster, launcher, mechanic, provisioner
         from esrally.utils import console, sysstats
 
@@ -123,6 +125,7 @@ class MechWorld:
         os.makedirs(self.root, exist_ok=True)
         self.calls = []  # (what, node/host) in call order
         self.next_outcome = "ok"
+        self.race_known = True
         self.up = set(initial_up)
         self.torn = False
         self._patches = []
@@ -236,6 +239,10 @@ class MechWorld:
 
         class RecRaceStore:
             def find_by_race_id(self_, race_id):
+                # the file race store of a host that has never stored the race (every remote host; the coordinator's host before
+                # the race was stored) answers NotFound
+                if not world.race_known:
+                    raise exceptions.NotFound("verif: no race with race id [%s]" % race_id)
                 return FakeRace(world)
 
         class RecResultsStore:
@@ -291,7 +298,7 @@ class MechWorld:
         self.ents, self.ids = entries_of(scn)
         self.n_nodes = len(scn["targets"])
         # observations (the property's observation point), per lifecycle
-        self.nd = [{"starts": 0, "stops": 0, "term": 0, "kills": 0, "sysm": 0, "stored": 0, "shut": 0, "dir": None, "proc": "alive"} for _ in range(self.n_nodes)]
+        self.nd = [{"starts": 0, "stops": 0, "term": 0, "kills": 0, "sysm": 0, "stored": 0, "shut": 0, "dir": None, "proc": "alive", "race": "none"} for _ in range(self.n_nodes)]
         self.nd_by_cyc[self.cyc] = self.nd
         self.procs = 0  # number of node processes the environment has put into a condition other than alive
         self.left = set()
@@ -466,6 +473,13 @@ class MechWorld:
                         res.append(dec + ("create",))
                         res.append(dec + ("launch",))
                     continue
+                # a node actor that will run Mechanic.stop_engine(): does its host's race store know the race?
+                if type(head).__name__ in ("StopNodes", "ActorExitRequest") and dec[2] in self.names and self.inst(dec[2]).mechanic is not None:
+                    ip = self.ents[self.names[dec[2]] - 1][0]
+                    if ip == 0:
+                        res.append(dec + ("known",))
+                    res.append(dec + ("unknown",))
+                    continue
             res.append(dec)
         rc, may_reset = self._rc_enabled()
         res.extend(rc)
@@ -496,7 +510,7 @@ class MechWorld:
             return False
         if dec[0] == "rc" and dec[1].startswith("reset"):
             return False
-        if dec[0] in ("leave", "proc") or (dec[0] == "deliver" and len(dec) > 3 and dec[3] != "ok"):
+        if dec[0] in ("leave", "proc") or (dec[0] == "deliver" and len(dec) > 3 and dec[3] in ("create", "launch")):
             return False
         return True
 
@@ -541,13 +555,13 @@ class MechWorld:
             if nm == "StartNodes":
                 return ("NRecvStartNodes", h, dec[3] if len(dec) > 3 else "ok")
             if nm == "ActorExitRequest":
-                return ("NRecvExit", h, "D")
+                return ("NRecvExit", h, "D" + ("+" + dec[3] if len(dec) > 3 else ""))
         if src == self.M:
             ev = {"StopNodes": "NRecvStopNodes", "ResetRelativeTime": "NRecvReset", "BenchmarkFailure": "NRecvFailure"}.get(nm)
             if ev:
-                return (ev, h, "")
+                return (ev, h, dec[3] if len(dec) > 3 and nm == "StopNodes" else "")
             if nm == "ActorExitRequest":
-                return ("NRecvExit", h, "M")
+                return ("NRecvExit", h, "M" + ("+" + dec[3] if len(dec) > 3 else ""))
         return ("Unmodelled" + nm, h, "")
 
     def step(self, dec):
@@ -587,13 +601,24 @@ class MechWorld:
                     self.sim.kill(name)
         else:
             outcome = dec[3] if len(dec) > 3 else "ok"
-            self.next_outcome = outcome
-            if outcome != "ok":
-                self.fault = outcome
-            try:
-                self.sim.step(dec[:3] if kind == "deliver" else dec)
-            finally:
-                self.next_outcome = "ok"
+            if outcome in ("known", "unknown"):
+                self.race_known = outcome == "known"
+                before = [x["stops"] for x in self.nd]
+                try:
+                    self.sim.step(dec[:3])
+                finally:
+                    self.race_known = True
+                for x, b in zip(self.nd, before):
+                    if x["stops"] > b:
+                        x["race"] = outcome
+            else:
+                self.next_outcome = outcome
+                if outcome != "ok":
+                    self.fault = outcome
+                try:
+                    self.sim.step(dec[:3] if kind == "deliver" else dec)
+                finally:
+                    self.next_outcome = "ok"
         # inert actors of earlier lifecycles (they exit with M; a departing daemon takes its actors along)
         while True:
             pend = [d for d in self.sim.enabled() if d[0] == "deliver" and d[2] in self.old_actors]
@@ -671,7 +696,7 @@ class MechWorld:
                 inst_dir = "absent"
             else:
                 inst_dir = "present" if os.path.isdir(x["dir"]) else "removed"
-            nd.append({"starts": x["starts"], "stops": x["stops"], "term": x["term"], "sysm": x["sysm"], "stored": x["stored"], "shut": x["shut"], "inst": inst_dir, "proc": x["proc"]})
+            nd.append({"starts": x["starts"], "stops": x["stops"], "term": x["term"], "sysm": x["sysm"], "stored": x["stored"], "shut": x["shut"], "inst": inst_dir, "proc": x["proc"], "race": x["race"]})
         st = self._state(d2n, n2m, m2n, n2d, mech, disp, na, nd, ho)
         # messages travelling between pairs of actors the model has no channel for (must be none)
         st["other"] = sum(len(q) for key, q in sim.chan.items() if key not in self._projected)
